@@ -25,6 +25,9 @@ macro_rules! tys { ($p:ident, $q:ident, $r:ident) => {
     #[derive(Clone, Copy, Debug, PartialEq)] pub struct $r(pub u8);
     // inherent methods named like the conversion methods: method-call syntax in an expansion would reach these
     impl $p { pub fn from<X>(_x: X) -> $p { $p(213) } pub fn into<X: From<$p>>(self) -> X { X::from($p(214)) } }
+    // (the LISTED source types too: `value.0.into()` on a listed `#[from(Q)]` value would reach this one)
+    impl $q { pub fn from<X>(_x: X) -> $q { $q(215) } pub fn into<X: From<$q>>(self) -> X { X::from($q(216)) } }
+    impl $r { pub fn from<X>(_x: X) -> $r { $r(217) } }
     impl From<$q> for $p { fn from(q: $q) -> $p { COUNT.fetch_add(1, Ordering::SeqCst); $p(q.0) } }
     impl From<$p> for $r { fn from(p: $p) -> $r { COUNT.fetch_add(1, Ordering::SeqCst); $r(p.0) } }
 } }
